@@ -1722,41 +1722,55 @@ func (t *itype) fieldSeq(seq []int) *itype {
 // lookupField returns a list of indices, i.e. a path to access a field in a struct object.
 func (t *itype) lookupField(name string) []int {
 	seen := map[*itype]bool{}
-	var lookup func(*itype) []int
 	tias := isStruct(t)
 
-	lookup = func(typ *itype) []int {
-		if seen[typ] {
-			return nil
-		}
-		seen[typ] = true
+	// The types are visited level by level: the shallowest field is selected.
+	type level struct {
+		typ   *itype
+		index []int
+	}
+	for cur := []level{{typ: t}}; len(cur) > 0; {
+		var next []level
+		for _, l := range cur {
+			typ := l.typ
+			for typ != nil && (typ.cat == linkedT || typ.cat == ptrT) && !seen[typ] {
+				seen[typ] = true
+				typ = typ.val
+			}
+			if typ == nil || seen[typ] {
+				continue
+			}
+			seen[typ] = true
 
-		switch typ.cat {
-		case linkedT, ptrT:
-			return lookup(typ.val)
-		}
-		if fi := typ.fieldIndex(name); fi >= 0 {
-			return []int{fi}
-		}
+			if fi := typ.fieldIndex(name); fi >= 0 {
+				return append(l.index, fi)
+			}
 
-		for i, f := range typ.field {
-			switch f.typ.cat {
-			case ptrT, structT, interfaceT, linkedT:
-				if tias != isStruct(f.typ) {
-					// Interface fields are not valid embedded struct fields.
-					// Struct fields are not valid interface fields.
-					break
-				}
-				if index2 := lookup(f.typ); len(index2) > 0 {
-					return append([]int{i}, index2...)
+			for i, f := range typ.field {
+				switch f.typ.cat {
+				case ptrT, structT, interfaceT, linkedT:
+					if tias != isStruct(f.typ) {
+						// Interface fields are not valid embedded struct fields.
+						// Struct fields are not valid interface fields.
+						break
+					}
+					next = append(next, level{f.typ, append(append([]int{}, l.index...), i)})
 				}
 			}
 		}
-
-		return nil
+		cur = next
 	}
+	return nil
+}
 
-	return lookup(t)
+// cloneSeen returns a copy of the set of visited types, so that the branches of a
+// look-up are explored independently of each other.
+func cloneSeen(seen map[*itype]bool) map[*itype]bool {
+	c := make(map[*itype]bool, len(seen))
+	for k, v := range seen {
+		c[k] = v
+	}
+	return c
 }
 
 // lookupBinField returns a structfield and a path to access an embedded binary field in a struct object.
@@ -1776,11 +1790,11 @@ func (t *itype) lookupBinField(name string) (s reflect.StructField, index []int,
 	}
 	s, ok = rt.FieldByName(name)
 	if !ok {
+		// The field promoted from the shallowest embedded field is selected.
 		for i, f := range t.field {
 			if f.embed {
-				if s2, index2, ok2 := f.typ.lookupBinField(name); ok2 {
-					index = append([]int{i}, index2...)
-					return s2, index, ok2
+				if s2, index2, ok2 := f.typ.lookupBinField(name); ok2 && (!ok || len(index2)+1 < len(index)) {
+					s, index, ok = s2, append([]int{i}, index2...), ok2
 				}
 			}
 		}
@@ -1841,13 +1855,16 @@ func (t *itype) lookupMethod2(name string, seen map[*itype]bool) (*node, []int) 
 	var index []int
 	m := t.getMethod(name)
 	if m == nil {
+		// The method promoted from the shallowest embedded field is selected.
 		for i, f := range t.field {
 			if f.embed {
-				if n, index2 := f.typ.lookupMethod2(name, seen); n != nil {
-					index = append([]int{i}, index2...)
-					return n, index
+				if n, index2 := f.typ.lookupMethod2(name, cloneSeen(seen)); n != nil && (m == nil || len(index2)+1 < len(index)) {
+					m, index = n, append([]int{i}, index2...)
 				}
 			}
+		}
+		if m != nil {
+			return m, index
 		}
 		if t.cat == linkedT || isInterfaceSrc(t) && t.val != nil {
 			return t.val.lookupMethod2(name, seen)
@@ -1916,13 +1933,16 @@ func (t *itype) lookupBinMethod2(name string, seen map[*itype]bool) (m reflect.M
 	if t.cat == ptrT {
 		return t.val.lookupBinMethod2(name, seen)
 	}
+	// The method promoted from the shallowest embedded field is selected.
 	for i, f := range t.field {
 		if f.embed {
-			if m2, index2, isPtr2, ok2 := f.typ.lookupBinMethod2(name, seen); ok2 {
-				index = append([]int{i}, index2...)
-				return m2, index, isPtr2, ok2
+			if m2, index2, isPtr2, ok2 := f.typ.lookupBinMethod2(name, cloneSeen(seen)); ok2 && (!ok || len(index2)+1 < len(index)) {
+				m, index, isPtr, ok = m2, append([]int{i}, index2...), isPtr2, ok2
 			}
 		}
+	}
+	if ok {
+		return m, index, isPtr, ok
 	}
 	m, ok = t.TypeOf().MethodByName(name)
 	if !ok {
